@@ -108,6 +108,41 @@ fn subject_from_bytes(name: &str, bytes: Vec<u8>, desc: Value, max_endpoints: us
     Subject { name: name.to_string(), bytes, full, endpoints: v.into_iter().collect(), leaf_first_ids, desc }
 }
 
+/// Subject whose reference content is the library's own *full* open (the property compares the partial open with
+/// it): used for irregular archives - an id covered by more than one entry - that the spec reader does not accept.
+fn subject_from_lib_open(name: &str, bytes: Vec<u8>, desc: Value, endpoints: Vec<u64>) -> Subject {
+    let mut pm = PMTiles::from_bytes(bytes.as_slice()).expect("HARNESS: irregular subject must open fully");
+    let mut ids: Vec<u64> = pm.tile_ids().into_iter().copied().collect();
+    ids.sort_unstable();
+    let full: BTreeMap<u64, Vec<u8>> = ids.iter().map(|id| (*id, pm.get_tile_by_id(*id).expect("HARNESS: full open must serve its tiles").expect("listed tile"))).collect();
+    Subject { name: name.to_string(), bytes, full, endpoints, leaf_first_ids: Vec::new(), desc }
+}
+
+/// archives in which one id is covered by more than one entry (not spec-valid, but they open): the same id listed
+/// twice, an entry overriding an id inside an earlier run, ids repeated across leaf directories
+fn irregular_subjects() -> Vec<Subject> {
+    use crate::spec::archive::{encode_foreign, Layout, Node};
+    use crate::spec::dir::SEntry;
+    use crate::spec::header::SHeader;
+    let data: Vec<u8> = (0..64u8).map(|i| b'a' + i % 26).collect();
+    let t = |id: u64, off: u64, len: u32, run: u32| Node::Tile(SEntry::new(id, off, len, run));
+    let trees: Vec<(&str, Vec<Node>)> = vec![
+        ("same-id-twice", vec![t(1, 0, 2, 1), t(3, 2, 3, 1), t(3, 5, 4, 1), t(9, 9, 1, 1)]),
+        ("override-inside-run", vec![t(0, 0, 2, 6), t(2, 2, 3, 1), t(4, 5, 4, 2), t(15, 9, 5, 1), t(15, 14, 6, 1)]),
+        ("across-leaves", vec![Node::Leaf(0, vec![t(0, 0, 2, 4), t(15, 2, 5, 1)]), Node::Leaf(2, vec![t(2, 7, 3, 1), t(10, 10, 2, 3)]), Node::Leaf(15, vec![t(15, 12, 6, 1), t(16, 18, 2, 1)])]),
+        ("later-leaf-lower-ids", vec![Node::Leaf(10, vec![t(10, 0, 2, 3), t(20, 2, 2, 1)]), Node::Leaf(11, vec![t(11, 4, 3, 1), t(12, 7, 3, 1), t(20, 10, 4, 1)])]),
+    ];
+    let mut out = Vec::new();
+    for (i, (name, root)) in trees.into_iter().enumerate() {
+        let comp = [1u8, 2, 4, 3][i % 4];
+        let f = encode_foreign(&root, &data, Some(b"{}"), comp, &Layout::default(), SHeader { tile_type: 2, tile_compression: 1, ..SHeader::default() });
+        let mut endpoints: Vec<u64> = (0..=22).collect();
+        endpoints.extend([u64::MAX - 1, u64::MAX]);
+        out.push(subject_from_lib_open(&format!("irregular-{name}"), f.bytes, json!({"irregular":name,"comp":comp}), endpoints));
+    }
+    out
+}
+
 pub fn subjects(thorough: bool) -> Vec<Subject> {
     let mut out = Vec::new();
     // library-written
@@ -136,6 +171,12 @@ pub fn subjects(thorough: bool) -> Vec<Subject> {
     for (i, s) in specs.iter().enumerate() {
         out.push(subject_from_bytes(&format!("foreign-{i}-{:?}", s.shape), foreign::build(s).bytes, s.to_json(), if thorough { 90 } else { 40 }));
     }
+    // more than 16 tiles whose bytes are nested in one another (the tile that starts last ends first), flat and in leaves
+    for (i, shape) in [Shape::RootOnly, Shape::Leaves].into_iter().enumerate() {
+        let s = Spec { order: i, gap: i, root_gap: false, shape, run: 1, offs: Offs::Nested, n: 40, meta: 1, comp: 1 + i as u8, base: 3, hv: 0, level_order: false };
+        out.push(subject_from_bytes(&format!("foreign-nested-40-{shape:?}"), foreign::build(&s).bytes, s.to_json(), if thorough { 60 } else { 30 }));
+    }
+    out.extend(irregular_subjects());
     // foreign with a leaf pointer id below its first entry and a run ending at u64::MAX-ish ids excluded: ids near zero
     out.push(subject_from_bytes(
         "foreign-pointer-below-first",
@@ -241,7 +282,7 @@ pub fn check_range(s: &Subject, lo: B, hi: B, max_lookups: usize) -> Vec<(String
 pub fn run(tier: &str) -> i32 {
     let rep = Report::new("C11", tier, "exploration");
     let thorough = rep.thorough();
-    rep.rule("for each of 9 archives (3 library-written incl. one with leaf directories, 6 foreign with depth 2-3, runs straddling leaf boundaries, a pointer id below its leaf's first entry): endpoint set V = {0,1,u64::MAX-1,u64::MAX, every leaf first id -1/0/+1, run starts/ends -1/0/+1, max id +-1, entry ids +- 2^32 (+ run length)}; ALL pairs (Included|Excluded|Unbounded)(v) x (Included|Excluded|Unbounded)(v) incl. empty and inverted ranges, through from_bytes_partially, from_reader_partially, from_async_reader_partially, util::read_directories(_async); oracle = full content (spec reader) filtered by RangeBounds::contains; non-trivial = ranges selecting a proper non-empty subset");
+    rep.rule("for each of 16 archives (4 library-written incl. leaf directories, 8 foreign with depth 2-3, runs straddling leaf boundaries, 40 tiles with nested byte extents, a pointer id below its leaf's first entry; 4 irregular ones in which an id is covered by several entries - reference = the library's own full open): endpoint set V = {0,1,u64::MAX-1,u64::MAX, every leaf first id -1/0/+1, run starts/ends -1/0/+1, max id +-1, entry ids +- 2^32 (+ run length)}; ALL pairs (Included|Excluded|Unbounded)(v) x (Included|Excluded|Unbounded)(v) incl. empty and inverted ranges, through from_bytes_partially, from_reader_partially, from_async_reader_partially, util::read_directories(_async); oracle = full content (spec reader) filtered by RangeBounds::contains; non-trivial = ranges selecting a proper non-empty subset");
     rep.assume("build has overflow checks on, as debug builds of users do");
     let subs = subjects(thorough);
     let mut total = 0u64;
